@@ -632,10 +632,11 @@ func (fr *Frame) enterLoop(li *loopInfo, b *ssa.BasicBlock, st *State, reach str
 	// 3. havoc
 	hst := st.clone()
 	// new allocation base
+	preTop := g.allocTop()
 	nb := g.sc.Fresh("base", SInt)
 	g.sc.Assume(fmt.Sprintf("(>= %s (+ %s %d))", nb.S, g.curBase, g.allocN+1))
 	g.curBase = nb.S
-	g.havocWrites(hst, st, writes, nb.S)
+	g.havocWrites(hst, st, writes, nb.S, preTop)
 	havocPhi := map[*ssa.Phi]Term{}
 	for _, phi := range phisOf(b) {
 		nm := phi.Comment
@@ -847,22 +848,25 @@ func (l *writeLog) add(g *Gen, key, elemSort, addr, pattern string) {
 	}
 	if addr != "" && l.variant(addr) {
 		// try the elements pattern: (Elem base idx) with invariant base
-		if strings.HasPrefix(addr, "(Elem ") {
+		if root := rootToken(addr); g.freshNames[root] || strings.HasPrefix(root, "(Obj ") {
+			// a cell of an object allocated inside the loop body: cannot alias anything older
+			pattern = "fresh"
+		} else if strings.HasPrefix(addr, "(Elem ") {
 			base := firstArg(addr[len("(Elem "):])
 			if !l.variant(base) {
 				pattern = "elems:" + base
-				addr = ""
 			} else {
-				addr = ""
-				pattern = ""
+				pattern = "shape:"
 			}
+		} else if sh, ok := addrShape(addr); ok {
+			pattern = "shape:" + sh
 		} else {
-			addr = ""
 			pattern = ""
 		}
+		addr = ""
 	}
 	if pattern != "" && strings.HasPrefix(pattern, "elems:") && l.variant(pattern) {
-		pattern = ""
+		pattern = "shape:"
 	}
 	k := key + "|" + addr + "|" + pattern
 	if l.seen[k] {
@@ -897,7 +901,7 @@ func firstArg(s string) string {
 }
 
 // havocWrites replaces the written locations in hst by unknown values (relative to pre-state st).
-func (g *Gen) havocWrites(hst, st *State, writes []writeRec, base string) {
+func (g *Gen) havocWrites(hst, st *State, writes []writeRec, base string, preTop string) {
 	byKey := map[string][]writeRec{}
 	for _, w := range writes {
 		byKey[w.key] = append(byKey[w.key], w)
@@ -907,11 +911,17 @@ func (g *Gen) havocWrites(hst, st *State, writes []writeRec, base string) {
 		es := ws[0].elemSort
 		old := g.heap(st, key, es)
 		whole := false
+		var shapes []string
+		fresh := false
 		var addrs, pats []string
 		for _, w := range ws {
 			switch {
 			case w.addr != "":
 				addrs = append(addrs, w.addr)
+			case w.pattern == "fresh":
+				fresh = true
+			case strings.HasPrefix(w.pattern, "shape:"):
+				shapes = append(shapes, strings.TrimPrefix(w.pattern, "shape:"))
 			case w.pattern != "":
 				pats = append(pats, strings.TrimPrefix(w.pattern, "elems:"))
 			default:
@@ -926,7 +936,13 @@ func (g *Gen) havocWrites(hst, st *State, writes []writeRec, base string) {
 				ds = append(ds, "(= r "+a+")")
 			}
 			for _, p := range pats {
-				ds = append(ds, "(and ((_ is Elem) r) (= (ebase r) "+p+"))")
+				ds = append(ds, "(= (elemArr r) "+p+")")
+			}
+			for _, sh := range shapes {
+				ds = append(ds, shapePred("r", sh))
+			}
+			if fresh {
+				ds = append(ds, "(> (rootOid r) "+preTop+")")
 			}
 			g.sc.Assume(fmt.Sprintf("(forall ((r Ref)) (! (or %s (= (select %s r) (select %s r))) :pattern ((select %s r))))",
 				strings.Join(ds, " "), nh.S, old.S, nh.S))
@@ -1065,3 +1081,52 @@ func (g *Gen) emitAllAxioms() {
 }
 
 var _ = token.NoPos
+
+// addrShape recognises addresses of the form (Fld (Fld (Elem a k) i) j): a leaf inside a slice element.
+// It returns the field indices from the outside in ("j,i").
+func addrShape(addr string) (string, bool) {
+	var ids []string
+	cur := addr
+	for strings.HasPrefix(cur, "(Fld ") {
+		inner := firstArg(cur[len("(Fld "):])
+		rest := strings.TrimSpace(cur[len("(Fld ")+len(inner) : len(cur)-1])
+		if rest == "" || strings.ContainsAny(rest, " ()") {
+			return "", false
+		}
+		ids = append(ids, rest)
+		cur = inner
+	}
+	if !strings.HasPrefix(cur, "(Elem ") {
+		return "", false
+	}
+	return strings.Join(ids, ","), true
+}
+
+// shapePred: r has the form (Fld ... (Elem _ _) ... ) with the given field indices (outside in).
+func shapePred(r, shape string) string {
+	var cs []string
+	cur := r
+	if shape != "" {
+		for _, id := range strings.Split(shape, ",") {
+			cs = append(cs, "((_ is Fld) "+cur+")", "(= (fid "+cur+") "+id+")")
+			cur = "(fbase " + cur + ")"
+		}
+	}
+	cs = append(cs, "((_ is Elem) "+cur+")")
+	return and(cs...)
+}
+
+// rootToken strips Fld/Elem wrappers from an address term.
+func rootToken(addr string) string {
+	cur := addr
+	for {
+		switch {
+		case strings.HasPrefix(cur, "(Fld "):
+			cur = firstArg(cur[len("(Fld "):])
+		case strings.HasPrefix(cur, "(Elem "):
+			cur = firstArg(cur[len("(Elem "):])
+		default:
+			return cur
+		}
+	}
+}
